@@ -19,6 +19,7 @@ type Live struct {
 	Snap Snap
 	FP   string
 	Docs map[string]string // C12: first document seen per option set
+	Acc  string            // C12 (Hist.Def): AccessorState — what the accessors hand out + the definition's content
 }
 
 // Hist is a history under construction.
@@ -33,6 +34,11 @@ type Hist struct {
 	DeepOnly int
 	BaseHdr  string
 	WithJS   bool
+	// C12, definition-held data (defdata.go): Def switches on the accessor/definition snapshot, the member-derived
+	// probes (Extra) and the member-list tie with the Lean model (Intern numbers the member values of this history).
+	Def    bool
+	Extra  []any
+	Intern *Interner
 }
 
 // CallRec records one call so that a history can be replayed on a fresh family of schemas.
@@ -44,14 +50,53 @@ type CallRec struct {
 
 // NewHist starts a history over a fresh base. withJS: fingerprints include the JSON Schema document and every
 // new schema is converted once when it is created (C08); without it no conversion ever happens implicitly (C12).
-func NewHist(b Base, withJS bool) *Hist {
+func NewHist(b Base, withJS bool) *Hist { return newHist(b, withJS, false) }
+
+// NewHistDef is NewHist(b, false) with the definition-held data observed as well (C12).
+func NewHistDef(b Base) *Hist { return newHist(b, false, true) }
+
+func newHist(b Base, withJS, def bool) *Hist {
 	s := b.Mk().(Schema)
-	h := &Hist{Base: b, WithJS: withJS}
-	fp := Fingerprint(s, withJS)
+	h := &Hist{Base: b, WithJS: withJS, Def: def}
+	if def {
+		h.Intern = NewInterner()
+		h.harvest(s)
+	}
+	fp := h.fp(s)
 	sn := TakeSnap(s)
-	h.Live = append(h.Live, &Live{S: s, Snap: sn, FP: fp})
+	h.Live = append(h.Live, &Live{S: s, Snap: sn, FP: fp, Acc: h.acc(s)})
 	h.BaseHdr = fmt.Sprintf("%s %s %d %d", sn.BagState, sn.ValState, sn.Len, sn.Cap)
 	return h
+}
+
+// fp is the behavioural fingerprint used by this history: the fixed probe set, and with Def the member-derived probes.
+func (h *Hist) fp(s any) string {
+	f := Fingerprint(s, h.WithJS)
+	if h.Def {
+		f += "|" + VerdictsOn(s, h.Extra)
+	}
+	return f
+}
+
+func (h *Hist) acc(s any) string {
+	if !h.Def {
+		return ""
+	}
+	return AccessorState(s)
+}
+
+// harvest adds the member-derived probes of s (deep copies) to the history's probe set.
+func (h *Hist) harvest(s any) {
+	have := map[string]bool{}
+	for _, p := range h.Extra {
+		have[fmt.Sprintf("%T|%s", p, Canon(p))] = true
+	}
+	for _, p := range MemberProbes(s) {
+		if k := fmt.Sprintf("%T|%s", p, Canon(p)); !have[k] && len(h.Extra) < 48 {
+			have[k] = true
+			h.Extra = append(h.Extra, p)
+		}
+	}
 }
 
 // Replay re-executes recorded calls on a fresh base and returns the live list (nil if a call no longer chains).
@@ -159,12 +204,12 @@ func (h *Hist) Step(ri int, method string, variant int, o *hx.Out) bool {
 	var changed []int
 	for i, l := range h.Live {
 		ns := TakeSnap(l.S)
-		nf := Fingerprint(l.S, h.WithJS)
+		nf := h.fp(l.S)
 		if ns.Content() == l.Snap.Content() && nf != l.FP {
 			// the converter itself is not deterministic for some schemas (Go map order, C12): a document that
 			// merely flips between the values already seen for this very schema is not a change made by the call
 			for try := 0; try < 12 && nf != l.FP; try++ {
-				nf = Fingerprint(l.S, h.WithJS)
+				nf = h.fp(l.S)
 			}
 			if nf == l.FP {
 				o.Count("nondeterministic-conversion-seen")
@@ -229,16 +274,23 @@ func (h *Hist) Step(ri int, method string, variant int, o *hx.Out) bool {
 	o.Count("class:" + class)
 	// phase (b): warm the result up (first conversion) and re-baseline everybody; pollution of relatives by this
 	// conversion is C12's business and only counted here.
-	fp := Fingerprint(res, h.WithJS)
+	grew := false
+	if h.Def {
+		n := len(h.Extra)
+		h.harvest(res)
+		grew = len(h.Extra) != n
+	}
+	fp := h.fp(res)
 	for _, l := range h.Live {
 		ns := TakeSnap(l.S)
-		nf := Fingerprint(l.S, h.WithJS)
-		if ns.Content() != l.Snap.Content() || nf != l.FP {
+		nf := h.fp(l.S)
+		if !grew && (ns.Content() != l.Snap.Content() || nf != l.FP) {
 			o.Count("convert-of-result-changed-a-relative")
 		}
 		l.Snap, l.FP = ns, nf
+		l.Acc = h.acc(l.S)
 	}
-	h.Live = append(h.Live, &Live{S: res, Snap: TakeSnap(res), FP: fp})
+	h.Live = append(h.Live, &Live{S: res, Snap: TakeSnap(res), FP: fp, Acc: h.acc(res)})
 	return true
 }
 
@@ -292,51 +344,97 @@ func OptionsFor(opt int, live []Schema, i int) jsonschema.Options {
 func (h *Hist) relook(o *hx.Out, why string) (changed, bagChanged []int) {
 	for i, l := range h.Live {
 		ns := TakeSnap(l.S)
-		nf := Fingerprint(l.S, h.WithJS)
+		nf := h.fp(l.S)
+		na := h.acc(l.S)
 		if ns.BagState+ns.Bag != l.Snap.BagState+l.Snap.Bag {
 			bagChanged = append(bagChanged, i)
 		}
-		if ns.ContentNoBag() != l.Snap.ContentNoBag() || nf != l.FP {
+		if na != l.Acc {
+			o.Count("definition-data-changed")
+			if os.Getenv("C08_DEBUG") != "" {
+				fmt.Fprintf(os.Stderr, "ACC %s live=%d by %s\n  %s\n->%s\n", h.Base.Name, i, why, l.Acc, na)
+			}
+		}
+		if ns.ContentNoBag() != l.Snap.ContentNoBag() || nf != l.FP || na != l.Acc {
 			changed = append(changed, i)
 			if os.Getenv("C08_DEBUG") != "" {
 				fmt.Fprintf(os.Stderr, "CHANGED %s live=%d by %s\n  snap: %q\n     -> %q\n  fp: %s\n   -> %s\n", h.Base.Name, i, why,
 					l.Snap.Content(), ns.Content(), l.FP, nf)
 			}
 		}
-		l.Snap, l.FP = ns, nf
+		l.Snap, l.FP, l.Acc = ns, nf, na
 	}
 	return changed, bagChanged
 }
 
-// Conv converts live[i] with option set opt. The oracle document is the one an isolated twin gives: the
-// derivation steps of this history replayed on a fresh base, with nothing converted before.
-func (h *Hist) Conv(i, opt int, o *hx.Out) {
+// convCore converts live[i] with option set opt and judges the step on the implementation alone. The oracle
+// document is the one an isolated twin gives: the derivation steps of this history replayed on a fresh base, with
+// nothing converted before.  same: "1" the document equals the twin's, "0" it does not, "n" it does not and fresh
+// isolated twins do not even agree among themselves (the conversion is not a function of the schema at all).
+// dtok: the definition's member list for the Lean model (Def histories; "0" otherwise), mtok: the member list the
+// document shows ("" when there is no dtok).
+func (h *Hist) convCore(i, opt int, o *hx.Out) (doc, same string, changed, bagChanged []int, dtok, mtok string) {
 	l := h.Live[i]
 	lives := make([]Schema, len(h.Live))
 	for j, x := range h.Live {
 		lives[j] = x.S
 	}
 	iso := "replay-failed"
-	if twin := Replay(h.Base, h.Calls); twin != nil && i < len(twin) {
+	twin := Replay(h.Base, h.Calls)
+	if twin != nil && i < len(twin) {
 		iso = JS(twin[i], OptionsFor(opt, twin, i))
 	}
-	doc := JS(l.S, OptionsFor(opt, lives, i))
-	changed, bagChanged := h.relook(o, fmt.Sprintf("conv %d", i))
-	same, g := 1, "g"+idx(bagChanged) // which live Bags were rewritten by this conversion
+	dtok = "0"
+	if h.Def && twin != nil && i < len(twin) {
+		dtok = h.Intern.DefCode(l.S, twin[i]) // read before the conversion; the spent twin is the scratch for classifying the accessor
+	}
+	doc = JS(l.S, OptionsFor(opt, lives, i))
+	changed, bagChanged = h.relook(o, fmt.Sprintf("conv %d", i))
+	same = "1"
 	if doc != iso {
-		same = 0
+		same = "0"
+		if h.Def && h.isoNondeterministic(i, opt, iso) {
+			same = "n"
+			o.Count("conv:nondeterministic-in-isolation")
+		}
 		if os.Getenv("C08_DEBUG") != "" {
-			fmt.Fprintf(os.Stderr, "DOC %s live=%d opt=%d\n  got: %s\n  iso: %s\n", h.Base.Name, i, opt, doc, iso)
+			fmt.Fprintf(os.Stderr, "DOC %s live=%d opt=%d %s\n  got: %s\n  iso: %s\n", h.Base.Name, i, opt, same, doc, iso)
 		}
 	}
-	h.Steps = append(h.Steps, fmt.Sprintf("%d conv %d 0 0 %s %s 0 ToJSONSchema@%s", i, opt, l.Snap.BagState, l.Snap.ValState, shortType(l.S)))
-	h.Verd = append(h.Verd, fmt.Sprintf("%d:%s", same, idx(changed)))
-	h.Strct = append(h.Strct, g)
-	h.Names = append(h.Names, fmt.Sprintf("conv(%d,opt%d)", i, opt))
+	if dtok != "0" {
+		mtok = "m" + h.Intern.DocMembers(doc, strings.HasPrefix(dtok, "E"))
+		o.Count("class:conv-with-definition-members")
+	}
 	o.Count("class:conv")
 	if strings.HasPrefix(doc, "ERR:") {
 		o.Count("conv:unrepresentable")
 	}
+	return
+}
+
+// isoNondeterministic: do fresh isolated twins (nothing converted before, nothing shared with this history) convert
+// to more than one document?
+func (h *Hist) isoNondeterministic(i, opt int, first string) bool {
+	for try := 0; try < 24; try++ {
+		twin := Replay(h.Base, h.Calls)
+		if twin == nil || i >= len(twin) {
+			return false
+		}
+		if JS(twin[i], OptionsFor(opt, twin, i)) != first {
+			return true
+		}
+	}
+	return false
+}
+
+// Conv converts live[i] with option set opt (see convCore).
+func (h *Hist) Conv(i, opt int, o *hx.Out) {
+	l := h.Live[i]
+	_, same, changed, bagChanged, dtok, mtok := h.convCore(i, opt, o)
+	h.Steps = append(h.Steps, fmt.Sprintf("%d conv %d %s 0 %s %s 0 ToJSONSchema@%s", i, opt, dtok, l.Snap.BagState, l.Snap.ValState, shortType(l.S)))
+	h.Verd = append(h.Verd, fmt.Sprintf("%s:%s", same, idx(changed)))
+	h.Strct = append(h.Strct, "g"+idx(bagChanged)+mtok) // which live Bags were rewritten by this conversion; the members shown
+	h.Names = append(h.Names, fmt.Sprintf("conv(%d,opt%d)", i, opt))
 }
 
 // ParseStep parses the whole probe set with live[i].
